@@ -150,8 +150,10 @@ impl<'a> PrettyPrinter<'a> {
     }
 
     pub(super) fn convert_binary_chain(&'a self, ctx: Context, binary: Binary<'a>) -> ArenaDoc<'a> {
-        let op = binary.op();
-        let prec = op.precedence();
+        let prec = binary.op().precedence();
+        // Whether the `not` of a `not in` operator was seen. It is printed together with the following `in`.
+        // Every binary in the chain has its own operator: `a in b not in c` mixes `in` and `not in`.
+        let seen_not = std::cell::Cell::new(false);
         ChainStylist::new(self)
             .process_resolved(
                 ctx,
@@ -161,7 +163,15 @@ impl<'a> PrettyPrinter<'a> {
                         .is_some_and(|binary| binary.op().precedence() == prec)
                 },
                 |child| {
-                    if child.kind() == SyntaxKind::In && op == BinOp::NotIn {
+                    if child.kind() == SyntaxKind::Not {
+                        seen_not.set(true);
+                        None
+                    } else if child.kind() == SyntaxKind::In {
+                        let op = if seen_not.replace(false) {
+                            BinOp::NotIn
+                        } else {
+                            BinOp::In
+                        };
                         Some(self.arena.text(op.as_str()))
                     } else {
                         BinOp::from_kind(child.kind()).map(|op| self.arena.text(op.as_str()))
